@@ -10,3 +10,4 @@ open PebblesVerif PebblesVerif.C15Witness
 #print axioms C15_witness_repeatable
 #print axioms C15_witness_depth
 #print axioms C15_full_statement_is_false
+#print axioms C15_malformed_typeref_is_error
